@@ -416,7 +416,21 @@ func runC07(cfg *vh.Config) error {
 				res.Fail(vh.Failure{Case: caseNo, Stream: "sem", Sig: "C07 semantic error " + d.Name + ": accepted", Clause: "returns descriptors or errors (an invalid file is not silently accepted)", Input: in, Got: "compiled"})
 			}
 		}
-		for _, l := range semAll[si].Lints {
+		for li, l := range semAll[si].Lints {
+			// what LintFile reports (or fails with) must be positioned inside the linted source too
+			var j5s []string
+			for _, fn := range sortedFileNames(d.Files) {
+				if strings.HasSuffix(fn, ".j5s") {
+					j5s = append(j5s, fn)
+				}
+			}
+			if l.Panic == nil && !l.TimedOut && li < len(j5s) {
+				if l.Err != nil {
+					checkPositions(res, caseNo, "sem", "semantic error "+d.Name+" (LintFile returned error)", cmpb.Positions(l.Err), d.Files, j5s[li], in)
+				} else if len(l.Pos) > 0 {
+					checkPositions(res, caseNo, "sem", "semantic error "+d.Name+" (LintFile report)", l.Pos, d.Files, j5s[li], in)
+				}
+			}
 			if l.Panic != nil {
 				res.Fail(vh.Failure{Case: caseNo, Stream: "sem", Sig: fmt.Sprintf("C07 semantic error %s: lint panic %s", d.Name, errClass(fmt.Sprint(l.Panic))), Clause: "never panics (lint path)", Input: in, Got: fmt.Sprint(l.Panic)})
 			} else if l.TimedOut {
@@ -424,6 +438,13 @@ func runC07(cfg *vh.Config) error {
 			}
 		}
 		la := semAll[si].All
+		if la.Panic == nil && !la.TimedOut {
+			if la.Err != nil {
+				checkPositions(res, caseNo, "sem", "semantic error "+d.Name+" (LintAll returned error)", cmpb.Positions(la.Err), d.Files, d.Main, in)
+			} else if len(la.Pos) > 0 {
+				checkPositions(res, caseNo, "sem", "semantic error "+d.Name+" (LintAll report)", la.Pos, d.Files, d.Main, in)
+			}
+		}
 		if la.Panic != nil {
 			res.Fail(vh.Failure{Case: caseNo, Stream: "sem", Sig: fmt.Sprintf("C07 semantic error %s: LintAll panic %s", d.Name, errClass(fmt.Sprint(la.Panic))), Clause: "never panics (lint path)", Input: in, Got: fmt.Sprint(la.Panic)})
 		}
